@@ -223,8 +223,13 @@ static void execCase(long long k, const std::string& sub, const CaseIn& in0, con
    }
    else
    {
-      S.count("leakcheck.skipped_after_exception");
-      leakCheck();       // absorb what the unwinding left behind so that it is not charged to the next case
+      // what the unwinding of an escaped exception left behind: a defect of its own (raw allocations of the readers are not exception safe)
+      S.count("leakcheck.runs_after_exception");
+      for(auto& g : leakCheck())
+      {
+         S.count(std::string("entry.") + entryName[in.entry] + ".leak_on_exception");
+         S.viol(std::string("C13:leak-on-exception:") + entryName[in.entry] + ":" + g.first, "after " + out.extype + " escaped: " + g.second);
+      }
    }
 #endif
    if(k % 97 == 0 || k == cli.from) S.sample(Json().str("sub", sub).str("entry", entryName[in.entry]).str("category", cat).str("what", label).num("bytes", (long long)in.bytes.size()).boolean("ok", out.ok).done());
